@@ -478,4 +478,15 @@ def r5_skip_is_a_fixpoint(a, tier):
     return rep
 
 
-RULES = [r0_line_splitter, r1_parseinfo, r2_one_index, r3_line_index_exhaustive, r4_delivery, r5_skip_is_a_fixpoint]
+def r6_memo_hit_unchanged(a, tier):
+    """a memoized result is handed back as it is: relabelling its node on a memo hit computes the end offset from a cursor that has not been advanced yet"""
+    from . import c04
+    rep = c04.r2_ownership(a, tier)
+    rep.rule = 'C12.R6'
+    for f in rep.findings:
+        f.rule = 'C12.R6'
+    rep.text = '[= C04.R2] ' + rep.text
+    return rep
+
+
+RULES = [r0_line_splitter, r1_parseinfo, r2_one_index, r3_line_index_exhaustive, r4_delivery, r5_skip_is_a_fixpoint, r6_memo_hit_unchanged]
